@@ -30,7 +30,13 @@ except ImportError:
 import busio  # type:ignore[import]
 from digitalio import DigitalInOut  # type:ignore[import]
 from ..rf24 import RF24, address_repr
-from .structs import RF24NetworkFrame, FrameQueue, FrameQueueFrag, is_address_valid
+from .structs import (
+    RF24NetworkFrame,
+    RF24NetworkHeader,
+    FrameQueue,
+    FrameQueueFrag,
+    is_address_valid,
+)
 from .constants import (
     MAX_FRAG_SIZE,
     MSG_FRAG_FIRST,
@@ -463,13 +469,14 @@ class NetworkMixin(RadioMixin):
         if not self._validate_msg_len(len(message)):
             message = message[:MAX_FRAG_SIZE]
         level = self._net_lvl if level is None else min(4, max(level, 0))
-        self.frame_buf.header.to_node = NETWORK_MULTICAST_ADDR
-        self.frame_buf.header.from_node = self._addr
         message_type = (
             message_type if not isinstance(message_type, str) else ord(message_type[0])
         )
-        self.frame_buf.header.message_type = message_type & 0xFF
-        self.frame_buf.message = message
+        # a new frame (with its own frame ID) for every multicast
+        self.frame_buf = RF24NetworkFrame(
+            RF24NetworkHeader(NETWORK_MULTICAST_ADDR, message_type & 0xFF), message
+        )
+        self.frame_buf.header.from_node = self._addr
         return self._write(_lvl_2_addr(level), TX_MULTICAST)
 
     def _validate_msg_len(self, length: int) -> bool:
